@@ -14,6 +14,16 @@ def uuid_text(ex, p, x):
     """uuid.UUID(str(x)) succeeds (assumed library predicate on the text)"""
     x = ex.deref(p, x)
     if isinstance(x, VStr):
+        lit = z3.simplify(x.t)
+        if z3.is_string_value(lit):
+            # a literal: decide it with the real library (uuid.UUID is the definition of the predicate)
+            import uuid
+            try:
+                uuid.UUID(lit.as_string())
+                ok = True
+            except ValueError:
+                ok = False
+            p.assume(_UUIDTEXT(lit) == ok)
         return VBool(_UUIDTEXT(x.t))
     t = box(x)
     return VBool(_UUIDTEXT(z3.If(Val.is_VStr(t), Val.s(t), _PYSTR(t))))
